@@ -1157,14 +1157,32 @@ fn clean_case(out: &mut Out, rng: &mut Rng, long: bool) {
     let mut next_id = 0u64;
     let mut queues: Vec<Vec<PMsg>> = vec![vec![]; nodes];
     let mut bodies: Vec<(usize, String, usize)> = vec![]; // (node, request body, publish index or 0)
+    let mut big_any = false;
     for (pos, it) in plan.iter().enumerate() {
         let now = t0 + pos as u64;
         match it {
             Item::Death { node, bd } => bodies.push((*node, format!("ev n{} ndeath bd={}{}", node + 1, bd, will_ts(rng)), 0)),
             Item::Birth { node, bd, n, ndev } => {
                 let (birth, msgs) = session(rng, *bd, now, *n, *ndev, &mut next_id);
-                let d = rng.range(0, 30);
+                // displacement: small (0..=30), or - long sessions, one in two - LARGE: every message may be delivered up to
+                // 128..=254 places late (fewer than 256 numbers outstanding, so each message still has one place), or one
+                // message overtakes 128..=220 earlier ones on top of a small displacement
+                let big = long && *n > 140 && rng.chance(1, 2);
+                let d = if big && rng.chance(1, 2) { rng.range(128, 254) } else { rng.range(0, 30) };
                 let mut q = displaced(rng, &msgs, d);
+                if big && d <= 30 {
+                    for _ in 0..rng.range(1, 2) {
+                        let k = rng.range(128, 220) as usize;
+                        if q.len() > k + 1 {
+                            let p = rng.below((q.len() - k) as u64) as usize;
+                            let m = q.remove(p + k);
+                            q.insert(p, m);
+                        }
+                    }
+                }
+                if big {
+                    big_any = true;
+                }
                 q.reverse();
                 queues[*node] = q;
                 bodies.push((*node, format!("ev n{} {}", node + 1, birth), 0));
@@ -1244,6 +1262,9 @@ fn clean_case(out: &mut Out, rng: &mut Rng, long: bool) {
     }
     c.out.nontrivial();
     c.out.count(if long { "clean:long" } else { "clean:short" });
+    if big_any {
+        c.out.count("clean:displacement-128..254");
+    }
     c.out.count(&format!("clean:timeout={}", if to == "-" { "none" } else if to == "3000" { "3s" } else { "tight" }));
 }
 
@@ -1764,6 +1785,68 @@ fn wrap_verbs_scenario(out: &mut Out) {
         }
         c.out.nontrivial();
         c.out.count("wrap-verbs");
+    }
+}
+
+/// No-spurious-rebirth / prompt-apply over a LONG reordering inside one window of 256: after `prefix` messages delivered
+/// in order, message prefix+k+1 (k in 128..=254) overtakes the k messages before it, which then arrive in order -
+/// every message of the node arrives, fewer than 256 numbers are ever outstanding, the gap closes before the reorder
+/// timeout (3 s / none; the whole history takes < 0.6 s of host time). Fault-free (`clean`): no NCMD at all (C07), the
+/// k+1 messages are applied in publisher order (C05), all of them by the delivery that closes the gap.
+fn long_overtake_scenarios(out: &mut Out) {
+    for (j, (prefix, k)) in [(0u64, 128u64), (0, 129), (0, 254), (200, 128), (200, 191), (120, 254), (300, 200)].into_iter().enumerate() {
+        for to in ["3000", "-"] {
+            let cfg = cfg_default(to, if j % 2 == 0 { 0 } else { 5000 }, 1);
+            let t0 = 1_000_000;
+            let mut c = Case::begin(out, &cfg, t0);
+            c.out.set_desc(format!("clean long-overtake prefix={} k={}", prefix, k));
+            c.sess.ordered_ids = true;
+            c.sess.clean = true;
+            c.op(&format!("ev n1 nbirth ts={} bd=3 id=1 ans=ok", t0));
+            c.op(&format!("ev n1 dbirth dev=1 seq=1 ts={} id=2 ans=ok", t0 + 1));
+            let body = |i: u64| -> String {
+                let (seq, ts, id) = (i % 256, t0 + i, i + 1);
+                match (i + j as u64) % 3 {
+                    0 => format!("ev n1 ddata dev=1 seq={} ts={} id={} ans=ok", seq, ts, id),
+                    _ => format!("ev n1 ndata seq={} ts={} id={} ans=ok", seq, ts, id),
+                }
+            };
+            for i in 2..=(prefix + 1) {
+                c.op(&body(i));
+            }
+            let first = prefix + 2;
+            let early = first + k;
+            let mut applied = 0usize;
+            let mut count = |a: &str| {
+                if a == "-" {
+                    return 0;
+                }
+                a.split(';')
+                    .filter(|e| {
+                        let e = e.split_once(':').map(|x| x.1).unwrap_or("");
+                        e.starts_with("nodeData(") || e.starts_with("devData(")
+                    })
+                    .count()
+            };
+            let a = c.op(&body(early));
+            applied += count(&a);
+            for i in first..early {
+                let a = c.op(&body(i));
+                applied += count(&a);
+                let want = if i + 1 == early { (k + 1) as usize } else { (i - first + 1) as usize };
+                if applied != want {
+                    c.out.fail(
+                        "C05:prompt-apply",
+                        "long-overtake",
+                        format!("message #{} overtook the {} messages #{}..#{}; after the delivery of #{} {} of them are applied, {} have all their predecessors", early, k, first, early - 1, i, applied, want),
+                    );
+                    applied = want;
+                }
+            }
+            c.op("adv 3100");
+            c.out.nontrivial();
+            c.out.count("long-overtake");
+        }
     }
 }
 
@@ -2331,7 +2414,7 @@ fn invalid_unknown_node_scenario(out: &mut Out) {
     }
 }
 
-pub const RULE: &str = "host histories through the real Application (paused tokio time, mock clock, recording stores): (a) fault-free multi-node multi-device streams with several sessions/rebirths each, sequence wrap included, every message delivered once within a bounded displacement (oracles: no NCMD, promptness, order); (b) the same with duplicates, losses, NDEATHs with matching/non-matching bdSeq, host offline/online, late old-session deliveries, unknown nodes/devices, store rejections, replayed NBIRTHs, invalid payloads, virtual time advanced to just before/after the reorder timeout, random rebirth switches, cooldown 0 / finite / longer than the run, timeout present/absent, resequencing on/off, node-queue sizes 1/2/1024; (c) every event sequence of length <= L over a 15-symbol single-node alphabet, for two configurations; (d) scripted trigger scenarios, node-clock-ahead/behind probes, a late duplicate followed by 300 messages; (e) payloads WITHOUT METRICS (`m=0`: NDATA / DBIRTH / DDATA carrying seq and timestamp only; DDEATH never carries any) in every generator - one message in eight of every generated session, two symbols of the exhaustive soups, a scripted scenario and every third message of a 530-message in-order session across the sequence wrap (oracle C05:prompt-apply: applied by the line that delivers it, nothing behind it withheld); (f) `AppClient::cancel()` of the generic Application (C20, host sentence): at the end or at a random point of faulty histories and random soups (final Offline delivered after the stop request was taken / withheld; the answer carries the ms until run() had returned; later requests meet a host that is gone), and - without request lines - a back-pressure matrix: node actors parked in their blocking rebirth NCMD publish by the client double, node queue sizes 1/2/1024 holding exactly the queue size / one less / none / one more message (the application task itself held in a send), final Offline withheld / delivered after the stop / handed over together with the cancel, parked calls released later or never, plus 40 random mixes of 1-3 nodes (oracles C20:host-cancel-never-waits, C20:host-cancel-publishes-offline-state, C20:host-cancel-disconnects, C20:host-run-returns). Non-trivial = at least two deliveries; distinct = distinct request-line sequences (hashed).";
+pub const RULE: &str = "host histories through the real Application (paused tokio time, mock clock, recording stores): (a) fault-free multi-node multi-device streams with several sessions/rebirths each, sequence wrap included, every message delivered once within a bounded displacement - up to 30 places, and in long sessions up to 128..254 places (every message late by up to that much, or one message overtaking 128..220 earlier ones), always fewer than 256 numbers outstanding; scripted `long-overtake`: one message overtakes the 128/129/191/200/254 before it, at the start of a session and across the sequence wrap, reorder timeout 3 s / none - (oracles: no NCMD, promptness, order); (b) the same with duplicates, losses, NDEATHs with matching/non-matching bdSeq, host offline/online, late old-session deliveries, unknown nodes/devices, store rejections, replayed NBIRTHs, invalid payloads, virtual time advanced to just before/after the reorder timeout, random rebirth switches, cooldown 0 / finite / longer than the run, timeout present/absent, resequencing on/off, node-queue sizes 1/2/1024; (c) every event sequence of length <= L over a 15-symbol single-node alphabet, for two configurations; (d) scripted trigger scenarios, node-clock-ahead/behind probes, a late duplicate followed by 300 messages; (e) payloads WITHOUT METRICS (`m=0`: NDATA / DBIRTH / DDATA carrying seq and timestamp only; DDEATH never carries any) in every generator - one message in eight of every generated session, two symbols of the exhaustive soups, a scripted scenario and every third message of a 530-message in-order session across the sequence wrap (oracle C05:prompt-apply: applied by the line that delivers it, nothing behind it withheld); (f) `AppClient::cancel()` of the generic Application (C20, host sentence): at the end or at a random point of faulty histories and random soups (final Offline delivered after the stop request was taken / withheld; the answer carries the ms until run() had returned; later requests meet a host that is gone), and - without request lines - a back-pressure matrix: node actors parked in their blocking rebirth NCMD publish by the client double, node queue sizes 1/2/1024 holding exactly the queue size / one less / none / one more message (the application task itself held in a send), final Offline withheld / delivered after the stop / handed over together with the cancel, parked calls released later or never, plus 40 random mixes of 1-3 nodes (oracles C20:host-cancel-never-waits, C20:host-cancel-publishes-offline-state, C20:host-cancel-disconnects, C20:host-run-returns). Non-trivial = at least two deliveries; distinct = distinct request-line sequences (hashed).";
 
 pub fn run(args: &Args, out: &mut Out) -> &'static str {
     let mut rng = Rng::new(args.seed);
@@ -2341,6 +2424,7 @@ pub fn run(args: &Args, out: &mut Out) -> &'static str {
     late_duplicate_scenario(out, "-");
     late_duplicate_scenario(out, "100");
     wrap_verbs_scenario(out);
+    long_overtake_scenarios(out);
     wrap_verbs_no_metrics_scenario(out);
     no_metrics_scenario(out);
     cancel_scenarios(out, &mut rng);
